@@ -17,6 +17,8 @@ func neutralise(name string, c *Case) (*Case, bool) {
 	switch name {
 	case "plain-names":
 		return neutraliseRename(c, isExoticName, true)
+	case "standard-status-codes":
+		return neutraliseStatusCodes(c)
 	case "no-punctuation-only-names":
 		return neutraliseRename(c, func(n string) bool { return normName(n) == "" }, true)
 	case "no-oaigen-names":
@@ -219,5 +221,56 @@ func neutralisePathToPath(c *Case) (*Case, bool) {
 	}
 	d := cloneCase(c)
 	d.Disk[c.Root] = string(canonJSON(root))
+	return d, true
+}
+
+// neutraliseStatusCodes replaces, in every responses object of every document, the status codes for which
+// net/http has no reason phrase (e.g. 306, 419) by standard codes not yet used in that responses object.
+func neutraliseStatusCodes(c *Case) (*Case, bool) {
+	if c.Disk == nil {
+		return nil, false
+	}
+	changed := false
+	spare := []string{"202", "203", "206", "301", "302", "400", "401", "403", "409", "410"}
+	var walk func(v any)
+	walk = func(v any) {
+		switch x := v.(type) {
+		case map[string]any:
+			if resps, ok := asObj(x["responses"]); ok {
+				for _, code := range sortedKeys(resps) {
+					if code != "306" && code != "419" && code != "499" && code != "420" {
+						continue
+					}
+					for _, sp := range spare {
+						if _, used := resps[sp]; !used {
+							resps[sp] = resps[code]
+							delete(resps, code)
+							changed = true
+							break
+						}
+					}
+				}
+			}
+			for _, k := range sortedKeys(x) {
+				walk(x[k])
+			}
+		case []any:
+			for _, e := range x {
+				walk(e)
+			}
+		}
+	}
+	d := cloneCase(c)
+	for p, sdoc := range c.Disk {
+		v, err := parseJSON([]byte(sdoc))
+		if err != nil {
+			continue
+		}
+		walk(v)
+		d.Disk[p] = string(canonJSON(v))
+	}
+	if !changed {
+		return nil, false
+	}
 	return d, true
 }
